@@ -53,8 +53,11 @@ package optracker
 //@   property C05
 //@   modifies nothing
 
+// cancelledOps: the operations whose context was cancelled so far (call-history ghost kept by the callers of Cancel)
+//@ ghost var cancelledOps set[*Operation]
 //@ func (op *Operation) Cancel
 //@   property C05
+//@   records cancelledOps = union(cancelledOps, setof(op))
 //@   modifies nothing
 
 //@ func NewOperation
@@ -74,7 +77,10 @@ package optracker
 //@   ensures [others-untouched] forall k cid.Cid :: k != pin.Cid ==> (haskey(opt.operations, k) <==> haskey(old(opt.operations), k)) && opt.operations[k] == old(opt.operations[k])
 //@   ensures [ops-untouched] forall o *Operation :: !fresh(o) ==> *o == old(*o)
 //@   ensures [self-untouched] forall t *OperationTracker :: t != opt ==> *t == old(*t)
-//@   modifies heap(OperationTracker), heap(Operation)
+// "dedupe same-type": the operation that stays registered keeps running; "cancel-and-replace": only the replaced one is cancelled
+//@   ensures [kept-operation-not-cancelled] haskey(old(opt.operations), pin.Cid) && old(opt.operations[pin.Cid].opType) == typ && ongoing(old(opt.operations[pin.Cid].phase)) ==> cancelledOps == old(cancelledOps)
+//@   ensures [only-the-replaced-operation-cancelled] forall o *Operation :: in(o, cancelledOps) && !in(o, old(cancelledOps)) ==> haskey(old(opt.operations), pin.Cid) && o == old(opt.operations[pin.Cid])
+//@   modifies heap(OperationTracker), heap(Operation), cancelledOps
 
 // Clean removes only the identical operation
 //@ func (opt *OperationTracker) Clean
